@@ -258,6 +258,11 @@ def recreateViews (h : Heap) (nodes : List Node) : Except (Err × Heap) Heap :=
             { t with vchildren := (t.vchildren.filter (· ≠ view)) ++ [n.tensor] }
           .ok { h with tens := h.tens.filter fun p => p.1 ≠ view }) h
 
+/-- `np.broadcast_to` (its result is read-only) -/
+def ViewFn.isBroadcastTo : ViewFn → Bool
+  | .broadcastTo _ => true
+  | _ => false
+
 /-- the bookkeeping `_in_place_op` does on `self` before the graph is duplicated:
 `self.null_grad(_clear_view_info=True)`, then the disconnected-view rule -/
 def inPlacePrelude (h : Heap) (live : List Nat) (self : Nat) : Heap :=
@@ -297,7 +302,7 @@ def inPlaceMutate (h : Heap) (g : DupGraph) (self : Nat) (selfIsBase : Bool) (ki
   let (target, chain) ← withHeap h (inPlaceTarget h g self mutArr)
   -- `np.broadcast_to` yields a read-only view, and the copy of a natively read-only base is made read-only
   -- (`mutant_base.data.flags.writeable = base.data.flags.writeable or …`): writing raises inside the guarded call
-  if chain.any (fun | .broadcastTo _ => true | _ => false) || h.ro.contains bt.data.buf then
+  if chain.any ViewFn.isBroadcastTo || h.ro.contains bt.data.buf then
     throw (.valueError, g.restore h)
   let inputs' := inputs.map fun
     | .t i => Operand.t (g.placeholderIfExists i)
